@@ -6,6 +6,10 @@ Decided statically (necessary conditions; DESIGN.md §3/C14) — waker and curso
            a call (save_waker, Waiting::add, add_waker, an inner poll).
   SLOT     the right waker slot: write parks in write_ready and wakes stream_ready; take parks in
            stream_ready and wakes write_ready; close wakes stream_ready.
+  SLOT-latest  State::save_waker stores the waker of the CURRENT poll on every path (clone_from / replace / insert /
+           assignment of cx.waker(), or a will_wake() == true edge): a slot that keeps an older waker sends the wake-up
+           to a context that is no longer polling (future moved, re-polled from another task, select!).
+           State::wake takes the stored waker out (the slot is empty afterwards) and wakes it.
   WAKE-2   state change => wake (avoid-reachability): after Next::write, every path to return passes
            wake(stream_ready) unless can_read() was false; after CircularBuf::take, every path passes
            wake(write_ready) unless can_write() — sampled BEFORE the take — was true; close => wake;
@@ -36,6 +40,7 @@ def run(ctx):
     facts = ctx.facts()
     wake1(ctx, facts)
     slots(ctx, facts)
+    latest_waker(ctx, facts)
     wake2(ctx, facts)
     guards(ctx, facts)
     cursors(ctx, facts)
@@ -367,3 +372,70 @@ def cursors(ctx, facts):
             ok = op == "fetch_add" and b.root == OS + "OrderingSender::next_op"
             ctx.ob("WHO-cursor", f"atomic-next:{op}@{b.root}", ok, "`next` advances only by fetch_add in next_op" if ok else f"`next` is modified by {op} in {b.root}", site_of(b, bb))
     ctx.floor("WHO-cursor", "atomic writes to OrderingSender.next", n, 1)
+
+
+def latest_waker(ctx, facts):
+    ctx.rule("SLOT-latest: every path through State::save_waker writes cx.waker() into the slot (Clone::clone_from(slot, cx.waker()) / Option::replace|insert(slot, cx.waker().clone()) / `*slot = Some(..)`), or passes the true edge of will_wake; State::wake empties the slot with take() and calls wake on what it took")
+    b = facts.bodies.get(OS + "State::save_waker")
+    if b is None:
+        ctx.missing("SLOT-latest", "State::save_waker")
+    else:
+        ctx.count(bodies=1)
+        writes = set()
+        for bb, t in b.calls():
+            fn = F.callee(t)[0] or ""
+            args = [str(flow.expr_of(b, a, max_depth=20)) for a in t["args"]]
+            from_cx = any(re.search(r"Context::<'\w+>::waker|Context::waker", a) and "('arg', 2)" in a for a in args[1:])
+            into_slot = bool(args) and "('arg', 1" in args[0]
+            if from_cx and into_slot and re.search(r"(Clone::clone_from|Option::<T>::(replace|insert)|mem::replace)$", fn):
+                writes.add(bb)
+        for bb, idx, st in b.iter_assigns():
+            if st["p"][0] == 1 and "*" in st["p"][1:] and st["r"]["k"] in ("use", "agg"):
+                e = str(flow.expr_of(b, st["r"]["o"], max_depth=20)) if st["r"]["k"] == "use" else str([flow.expr_of(b, o, max_depth=20) for o in st["r"].get("ops", [])])
+                if re.search(r"Context::<'\w+>::waker|Context::waker", e):
+                    writes.add(bb)
+        same = set()
+        for tgt, f in flow.edge_guards(b):
+            if f[0] == "true" and f[1][0] == "call" and f[1][1].endswith("Waker::will_wake"):
+                same.add(tgt)
+        rets = [bb for bb in b.live_blocks() if b.term(bb)["k"] == "ret"]
+        reach = b.reachable(0, avoid=frozenset(writes | same))
+        stale = [r for r in rets if r in reach]
+        ok = bool(writes) and not stale
+        ctx.ob("SLOT-latest", "save_waker:stores-current-waker-on-every-path", ok, "the slot always ends up holding the waker of this poll" if ok else "State::save_waker can return without storing the current context's waker (e.g. it keeps an already stored one): after the future is polled from another task/context, the wake-up goes to the stale waker and the real waiter sleeps forever", site_of(b, stale[0]) if stale else site_of(b))
+    w = facts.bodies.get(OS + "State::wake")
+    if w is None:
+        ctx.missing("SLOT-latest", "State::wake")
+    else:
+        ctx.count(bodies=1)
+        tk = [(bb, t) for bb, t in w.calls() if (F.callee(t)[0] or "").endswith("Option::<T>::take") and "('arg', 1" in str(flow.expr_of(w, t["args"][0]))]
+        wk = [(bb, t) for bb, t in w.calls() if re.search(r"Waker::wake(_by_ref)?$", F.callee(t)[0] or "")]
+        ok = bool(tk) and bool(wk) and all("Option::<T>::take" in str(flow.expr_of(w, t["args"][0], max_depth=20)) for bb, t in wk)
+        ctx.ob("SLOT-latest", "wake:takes-then-wakes", ok, "wake() empties the slot and wakes the waker it took" if ok else "State::wake does not take the stored waker out of the slot and wake exactly that one", site_of(w))
+    # the receiver side: add_waker(i, waker) must keep `waker` on every path that returns
+    a = facts.bodies.get(UR + "OperatingState::<S, C>::add_waker")
+    if a is None:
+        ctx.missing("SLOT-latest", "OperatingState::add_waker")
+        return
+    ctx.count(bodies=1)
+    writes = set()
+    for bb, t in a.calls():
+        fn = F.callee(t)[0] or ""
+        args = [str(flow.expr_of(a, x, max_depth=20)) for x in t["args"]]
+        if any("('arg', 3)" in x for x in args[1:]) and re.search(r"(Clone::clone_from|Option::<T>::(replace|insert)|Vec::<T, A>::push|VecDeque::<T, A>::push_back)$", fn):
+            writes.add(bb)
+    for bb, idx, st in a.iter_assigns():
+        if st["p"][0] == 1 and len(st["p"]) > 1 and st["r"]["k"] in ("use", "agg"):
+            e = str(flow.expr_of(a, st["r"]["o"], max_depth=20)) if st["r"]["k"] == "use" else str([flow.expr_of(a, o, max_depth=20) for o in st["r"].get("ops", [])])
+            if "('arg', 3)" in e:
+                writes.add(bb)
+        # `self.wakers[index] = Some(waker.clone())` goes through IndexMut: the assigned place is (*_x) of an index_mut result
+        if st["r"]["k"] in ("use", "agg") and len(st["p"]) > 1 and st["p"][1] == "*":
+            e = str(flow.expr_of(a, st["r"]["o"], max_depth=20)) if st["r"]["k"] == "use" else str([flow.expr_of(a, o, max_depth=20) for o in st["r"].get("ops", [])])
+            if "('arg', 3)" in e:
+                writes.add(bb)
+    rets = [bb for bb in a.live_blocks() if a.term(bb)["k"] == "ret"]
+    reach = a.reachable(0, avoid=frozenset(writes))
+    stale = [r for r in rets if r in reach]
+    ok = len(writes) >= 2 and not stale
+    ctx.ob("SLOT-latest", "add_waker:stores-given-waker-on-every-path", ok, "the waker handed in is kept (ring slot, overwriting an older one, or overflow list)" if ok else "OperatingState::add_waker can return without keeping the waker it was given: that receiver is never woken when its record arrives", site_of(a, stale[0]) if stale else site_of(a))
